@@ -13,7 +13,7 @@ Engines
   FILL   every solo body under allocator fill patterns {00,FF,55,AA,7F}: digests must not change.
   VG     every solo body under valgrind memcheck (use of uninitialised values, undefined bytes reaching an output).
 """
-import os, sys, json, time, re, subprocess, itertools, threading
+import os, sys, json, time, re, subprocess, itertools, threading, tempfile, shutil
 import concurrent.futures as cf
 import vlib
 
@@ -189,6 +189,20 @@ def run(tier):
     exe = vlib.harness('plain', 'c18_sched')
     texe = vlib.harness('tsan', 'c18_sched', extra='-DC18_TSAN', wrap=False)
     st = streams(exe)
+    # private copies: another author's rebuild (bin/build.sh wipes <flavour>/bin and zoo/ when the tree changes) must not
+    # pull binaries or streams away under a running exploration; the run keeps judging the tree it was started on
+    os.makedirs(os.path.join(vlib.BUILD, 'tmp'), exist_ok=True)
+    priv = tempfile.mkdtemp(prefix='c18run.', dir=os.path.join(vlib.BUILD, 'tmp'))
+    try:
+        exe = shutil.copy2(exe, os.path.join(priv, 'c18_sched'))
+        texe = shutil.copy2(texe, os.path.join(priv, 'c18_sched_tsan'))
+        st = [a.split('=', 1)[0] + '=' + shutil.copy2(a.split('=', 1)[1], priv) for a in st]
+        return _run(chk, tier, t0, deadline, exe, texe, st)
+    finally:
+        shutil.rmtree(priv, ignore_errors=True)
+
+
+def _run(chk, tier, t0, deadline, exe, texe, st):
     fixed = st + ['deadline=%d' % int(deadline)]
     side_budget = (deadline - time.time()) + (22 if tier == 'quick' else 150)     # TSan / valgrind side passes are killed after this many seconds
     cov = chk.cov
